@@ -33,6 +33,9 @@ def optsOfJson (j : Json) : Except String Opts := do
 
 def actOfJson (j : Json) : Except String Act := do
   let op ← (← j.getObjVal? "op").getStr?
+  if op == "push" then return Act.push
+  if op == "pop" then return Act.pop
+  if op == "drop" then return Act.drop
   let k ← jstr j "k"
   match op with
   | "envSet" => pure (Act.envSet (← jbool j "force") (← jbool j "fwd") k (← jstr j "v"))
